@@ -95,6 +95,8 @@ class ORMatic:
     def __post_init__(self):
         self.type_mappings[Type] = TypeType
         self.imported_modules.add(Type.__module__)
+        # the primary key of every DAO is annotated as Mapped[builtins.int]
+        self.imported_modules.add(int.__module__)
         self._create_inheritance_graph()
         self._add_alternative_mappings_to_class_diagram()
         self._create_wrapped_tables()
